@@ -710,6 +710,17 @@ func cmdHist(args []string) int {
 		}
 		for _, l := range strings.Split(string(b), "\n") {
 			var sd int64
+			if n, _ := fmt.Sscanf(l, "shareddb seed=%d", &sd); n == 1 {
+				fails, line := hist.SharedDbScenario(sd)
+				fmt.Println(line)
+				for _, f := range fails {
+					fmt.Println("MONITOR C17:", f)
+				}
+				if len(fails) > 0 {
+					return 1
+				}
+				return 0
+			}
 			if n, _ := fmt.Sscanf(l, "batchorder seed=%d", &sd); n == 1 {
 				rc := 0
 				// the order of the batch goroutines decides: the burst is repeated
